@@ -5,7 +5,7 @@ import BigtoolsModel.PyArr
 import BigtoolsModel.PyOob
 import BigtoolsModel.OverlapsGen
 import BigtoolsModel.PyBinsNoNan
-import BigtoolsModel.AtomsGen
+import BigtoolsModel.ConvGen
 /-! # C20 — Python-binding array routines compute the documented per-base and binned values
 
 Property theorems (statements copied from the lemma modules, proofs by those lemmas). -/
